@@ -6,8 +6,10 @@
 -/
 import PM.Content
 import PM.CreateFill
+import PM.SchemaCompile
 import Proofs.Valid
 import Proofs.MkNode
+import Proofs.SchemaCompile
 namespace PM.C07
 open PM
 
@@ -186,5 +188,148 @@ example :
     Sp.createChecked 0 [] [.leaf 1 [] []] [] = .node (.elem 0 [] [] [.leaf 1 [] []]) ∧
     Sp.createChecked 1 [] [.leaf 1 [] []] [] = .raises .valueError := by
   decide
+
+/-! ### The node type tables are what the spec says (construction of the schema,
+    `PM/SchemaCompile.lean: compileSchema`, tied field by field to `Schema(spec)`) -/
+
+open PM.SchemaCompile
+
+/-- **the compiled fields of a node type**, from its spec entry: `is_text` ⇔ the name is `"text"`;
+    `is_inline` ⇔ `inline` is set or the name is `"text"`; `is_leaf` ⇔ the content expression has no
+    token (white space only); `is_atom` ⇔ leaf or `atom` set; `isolating` / `defining` / `code` as
+    given; the content automaton is `ContentMatch.empty` for a leaf and the given automaton otherwise;
+    `inline_content` ⇔ the first edge out of its start state is labelled with an inline type -/
+theorem nodeTable_spec {spec : Spec} {dfas : List Dfa} {S : Schema} (h : compileSchema spec dfas = .ok S)
+    (i : Nat) (hi : i < spec.nodes.length) :
+    (S.nodeType i).name = spec.nodes[i].name ∧
+    (S.nodeType i).isText = (spec.nodes[i].name == "text") ∧
+    (S.nodeType i).isInline = (spec.nodes[i].inline || spec.nodes[i].name == "text") ∧
+    (S.nodeType i).isLeaf = contentEmpty spec.nodes[i].content ∧
+    (S.nodeType i).isAtom = ((S.nodeType i).isLeaf || spec.nodes[i].atom) ∧
+    (S.nodeType i).isolating = spec.nodes[i].isolating ∧
+    (S.nodeType i).defining = spec.nodes[i].defining ∧
+    (S.nodeType i).code = spec.nodes[i].code ∧
+    S.dfa i = (if (S.nodeType i).isLeaf then emptyMatch else dfas.getD i emptyMatch) ∧
+    (S.nodeType i).inlineContent = inlineContentOf spec.nodes (S.dfa i) := by
+  have c := compileSchema_ok h
+  obtain ⟨_, h1, h2, h3, h4, h5, h6, h7, h8, _, h10, h11, _⟩ := compileNode_ok (c.node i hi)
+  refine ⟨h1, h2, h3, h4, by rw [h5, h4], h6, h7, h8, by rw [Schema.dfa, h10, h4], h11⟩
+
+/-- the first edge out of the start state decides `inline_content`, read in the compiled tables -/
+theorem inlineContent_iff {spec : Spec} {dfas : List Dfa} {S : Schema} (h : compileSchema spec dfas = .ok S)
+    (i : Nat) (hi : i < spec.nodes.length) :
+    (S.nodeType i).inlineContent = true ↔
+      ∃ t q rest, (S.dfa i).edgesOf 0 = (t, q) :: rest ∧ t < spec.nodes.length ∧ (S.nodeType t).isInline = true := by
+  have c := compileSchema_ok h
+  rw [(nodeTable_spec h i hi).2.2.2.2.2.2.2.2.2]
+  unfold inlineContentOf
+  cases he : (S.dfa i).edgesOf 0 with
+  | nil => simp
+  | cons e rest =>
+    obtain ⟨t, q⟩ := e
+    simp only [List.cons.injEq, Prod.mk.injEq]
+    constructor
+    · intro hh
+      by_cases ht : t < spec.nodes.length
+      · refine ⟨t, q, rest, ⟨⟨rfl, rfl⟩, rfl⟩, ht, ?_⟩
+        rw [(compileNode_ok (c.node t ht)).2.2.2.1]
+        simpa [ht] using hh
+      · simp [List.getElem?_eq_none (Nat.le_of_not_lt ht)] at hh
+    · rintro ⟨t', q', rest', ⟨⟨rfl, rfl⟩, rfl⟩, ht, hin⟩
+      rw [(compileNode_ok (c.node t ht)).2.2.2.1] at hin
+      simp [ht, hin]
+
+/-- a leaf type accepts exactly the empty child sequence (its automaton is `ContentMatch.empty`) and
+    has no inline content -/
+theorem leaf_spec {spec : Spec} {dfas : List Dfa} {S : Schema} (h : compileSchema spec dfas = .ok S)
+    (i : Nat) (hi : i < spec.nodes.length) (hl : (S.nodeType i).isLeaf = true) :
+    S.dfa i = #[⟨true, []⟩] ∧ (∀ ts, (S.dfa i).accepts ts = true ↔ ts = []) ∧
+    (S.nodeType i).inlineContent = false := by
+  have t := nodeTable_spec h i hi
+  have hd : S.dfa i = #[⟨true, []⟩] := by rw [t.2.2.2.2.2.2.2.2.1, hl]; rfl
+  refine ⟨hd, ?_, ?_⟩
+  · intro ts
+    rw [hd]
+    cases ts with
+    | nil => simp [Dfa.accepts, Dfa.run, Dfa.validEnd]
+    | cons x xs => simp [Dfa.accepts, Dfa.run, Dfa.matchType, Dfa.edgesOf]
+  · rw [t.2.2.2.2.2.2.2.2.2, hd]
+    simp [inlineContentOf, Dfa.edgesOf]
+
+/-- **top node and text type**: `top` is the type called `topNode` (default, also for `""`: `"doc"`),
+    `textTy` the one called `"text"`; the text type is the only one with `is_text`, it is inline and has
+    no attributes -/
+theorem top_text_spec {spec : Spec} {dfas : List Dfa} {S : Schema} (h : compileSchema spec dfas = .ok S) :
+    (∃ ht : S.top < spec.nodes.length, spec.nodes[S.top].name = spec.topName) ∧
+    (∃ hx : S.textTy < spec.nodes.length, spec.nodes[S.textTy].name = "text") ∧
+    (S.nodeType S.textTy).isText = true ∧ (S.nodeType S.textTy).isInline = true ∧
+    (S.nodeType S.textTy).attrs = [] ∧
+    ((spec.nodes.map (·.name)).Nodup → ∀ i, i < spec.nodes.length →
+      ((S.nodeType i).isText = true ↔ i = S.textTy)) := by
+  have c := compileSchema_ok h
+  obtain ⟨htl, htn⟩ := nodeName_of_findIdx? _ _ _ c.top
+  obtain ⟨hxl, hxn⟩ := nodeName_of_findIdx? _ _ _ c.text
+  have t := nodeTable_spec h S.textTy hxl
+  refine ⟨⟨htl, htn⟩, ⟨hxl, hxn⟩, by rw [t.2.1, hxn]; rfl, by rw [t.2.2.1, hxn]; simp, ?_, ?_⟩
+  · rw [(compileNode_ok (c.node _ hxl)).2.2.2.2.2.2.2.2.2.1, c.textAttrs hxl]; rfl
+  · intro hnd i hi
+    rw [(nodeTable_spec h i hi).2.1]
+    simp only [beq_iff_eq]
+    constructor
+    · intro hname
+      have e : (spec.nodes.map (·.name))[i]'(by simpa using hi) =
+          (spec.nodes.map (·.name))[S.textTy]'(by simpa using hxl) := by simp [hname, hxn]
+      exact (List.getElem_inj hnd).mp e
+    · rintro rfl; exact hxn
+
+/-- **`attrs_defaults_spec`**: the attribute declarations are the spec's, in order; `has_default` ⇔ the
+    attribute spec has a `default` key; `has_required_attrs` ⇔ some attribute has no default; a type
+    can be generated (`ContentMatch.default_type`, `fill_before`) ⇔ it is not text and needs none -/
+theorem attrs_defaults_spec {spec : Spec} {dfas : List Dfa} {S : Schema} (h : compileSchema spec dfas = .ok S)
+    (i : Nat) (hi : i < spec.nodes.length) :
+    (S.nodeType i).attrs.map (·.name) = spec.nodes[i].attrs.map (·.name) ∧
+    (S.nodeType i).attrs.map (·.hasDefault) = spec.nodes[i].attrs.map (·.default.isSome) ∧
+    (∀ a ∈ spec.nodes[i].attrs, ∀ v, a.default = some v → ⟨a.name, true, v⟩ ∈ (S.nodeType i).attrs) ∧
+    (hasRequiredAttrs (S.nodeType i).attrs = true ↔ ∃ a ∈ spec.nodes[i].attrs, a.default = none) ∧
+    (S.generatable i = true ↔ spec.nodes[i].name ≠ "text" ∧ ∀ a ∈ spec.nodes[i].attrs, a.default ≠ none) := by
+  have c := compileSchema_ok h
+  have hc := compileNode_ok (c.node i hi)
+  have ha := hc.2.2.2.2.2.2.2.2.2.1
+  refine ⟨by simp [ha, initAttrs], by simp [ha, initAttrs], ?_, by simp [ha, hasRequiredAttrs, initAttrs], ?_⟩
+  · intro a hmem v hv
+    rw [ha]
+    simp only [initAttrs, List.mem_map]
+    exact ⟨a, hmem, by simp [hv]⟩
+  · simp [Schema.generatable, ha, hc.2.2.1, initAttrs]
+
+/-! the small spec of `Props/C14.lean`, node side: `doc`, `p`, `pre` (code), `text`; `br` an inline leaf
+    with a required attribute; `"text{0}"` gives the same automaton as a leaf but is not one -/
+private def exSpec : Spec := {
+  nodes := [
+    { name := "doc", content := "block+", attrs := [{ name := "v", default := some "1" }] },
+    { name := "p", content := "(text | br)*", group := some "block" },
+    { name := "pre", content := "text{0}", group := some "block", code := true, atom := true },
+    { name := "text", group := some "inline" },
+    { name := "br", content := " ", inline := true, group := some "inline", attrs := [{ name := "k" }] }],
+  topNode := some "" }
+
+private def exDfas : List Dfa := [
+  #[⟨false, [(1, 1), (2, 1)]⟩, ⟨true, [(1, 1), (2, 1)]⟩],
+  #[⟨true, [(3, 0), (4, 0)]⟩], #[⟨true, []⟩], #[⟨true, []⟩], #[⟨true, []⟩]]
+
+example : exSpec.WF := by decide
+example : ((compileSchema exSpec exDfas).toOption.map (fun S => (S.top, S.textTy))) = some (0, 3) := by decide
+example : ((compileSchema exSpec exDfas).toOption.map (fun S => S.nodes.toList.map (·.isLeaf))) =
+    some [false, false, false, true, true] := by decide
+example : ((compileSchema exSpec exDfas).toOption.map (fun S => S.nodes.toList.map (·.isAtom))) =
+    some [false, false, true, true, true] := by decide
+example : ((compileSchema exSpec exDfas).toOption.map (fun S => S.nodes.toList.map (·.isInline))) =
+    some [false, false, false, true, true] := by decide
+example : ((compileSchema exSpec exDfas).toOption.map (fun S => S.nodes.toList.map (·.inlineContent))) =
+    some [false, true, false, false, false] := by decide
+example : ((compileSchema exSpec exDfas).toOption.map (fun S => S.nodes.toList.map (·.markSet))) =
+    some [some [], none, some [], some [], some []] := by decide
+example : ((compileSchema exSpec exDfas).toOption.map (fun S =>
+      (List.range 5).map (fun i => S.generatable i))) = some [true, true, true, false, false] := by decide
 
 end PM.C07
